@@ -111,8 +111,9 @@ def tape_for(rng, n, mask, extra=0):
 def check_chunks(run, h, name, expected_lists, case):
     """the chunk lists fed to ChallengeBuilder by the builder and by the proof (read through the hook)"""
     log = h.chal_log()
+    # the hashed byte STRING is compared (how the code cuts it into consume_bytes calls is not the property's business)
     ok = len(log) >= len(expected_lists) and all(
-        [c.hex() for c in log[i][1]] == expected_lists[i] for i in range(len(expected_lists)))
+        "".join(c.hex() for c in log[i][1]) == "".join(expected_lists[i]) for i in range(len(expected_lists)))
     run.check_corr(name, ok, dict(case, recorded=[[c.hex() for c in e[1]] for e in log[:3]], expected=expected_lists))
 
 
